@@ -45,6 +45,13 @@ const URLS: &[&str] = &[
     "file:///https://x",
     "data:https://x",
     "mailto:https@example.com",
+    // URLs whose ORIGIN (as the url crate computes it) is an https origin although their scheme is not https
+    "blob:https://as.example/revoke",
+    "blob:https://as.example/0b5c7f3e-revoke",
+    "blob:http://as.example/revoke",
+    "view-source:https://as.example/revoke",
+    "jar:https://as.example/x.jar!/revoke",
+    "filesystem:https://as.example/temporary/revoke",
     // hosts a "development convenience" exemption would single out
     "http://localhost/revoke",
     "http://localhost:8080/revoke",
